@@ -46,7 +46,8 @@ Edge == <<                                        \* shapes on the three edges o
   G("Point", <<4, 40000>>),                        \* 2.56 MHz and 4.6 MHz: where frequency * 1e9 runs out of fraction bits
   G("Point", <<4, 72000>>),
   G("LineString", <<<<2, 72000>>, <<6, 72000>>>>),
-  G("Polygon", <<Rect(2, 72000, 6, 72032)>>)
+  G("Polygon", <<Rect(2, 72000, 6, 72032)>>),
+  G("LineString", <<<<0, 0>>, <<1, 32>>, <<2, 16>>>>)    \* with buffers (1, 0): buffer_geometry raises KeyError (found by the random driver)
 >>
 TickCat == Catalogue(FMAXC)
 Geoms == [i \in 1..(Len(TickCat) + Len(Edge)) |-> IF i <= Len(TickCat) THEN Sub(TickCat[i]) ELSE Edge[i - Len(TickCat)]]
